@@ -81,7 +81,7 @@ SetRefusal(I, p) ==
 NewB(ap, v) == [k |-> "b", ap |-> ap, val |-> v, lead |-> <<>>, eol |-> "", blank |-> FALSE]
 RECURSIVE Nest(_, _, _)
 Nest(p, v, ml) == IF Len(p) = 1 THEN NewB(p, v)
-                  ELSE NewB(<<p[1]>>, [k |-> "set", rec |-> FALSE, ml |-> ml, items |-> <<Nest(Tail(p), v, ml)>>])
+                  ELSE NewB(<<p[1]>>, [k |-> "set", rec |-> FALSE, ml |-> ml, items |-> <<Nest(Tail(p), v, ml)>>, dang |-> <<>>])
 
 \* the reference result (one of the allowed ones; the relation below says what is allowed)
 RECURSIVE SetIn(_, _, _, _)
@@ -101,7 +101,9 @@ RmRefusal(I, p) ==
     ELSE IF Through(I, p) # {} THEN
         LET i == Via(I, p) IN
         IF ~IsSet(I[i].val) THEN "non_set" ELSE RmRefusal(I[i].val.items, Drop(p, Len(I[i].ap)))
-    ELSE "missing"                                            \* incl. attrpath roots / intermediates
+    ELSE IF Beyond(I, p) # {} THEN "family"                    \* attrpath root / intermediate: the reference raises
+                                                              \* KeyError; removing the whole family is tolerated
+    ELSE "missing"
 
 RECURSIVE RmIn(_, _)
 RmIn(I, p) ==
@@ -112,14 +114,16 @@ RmIn(I, p) ==
 (* What a successful operation may do to an item sequence (C04 / C05).      *)
 
 SameButVal(x, y) == IsBind(x) /\ IsBind(y) /\ x.ap = y.ap /\ x.lead = y.lead /\ x.eol = y.eol /\ x.blank = y.blank
-SameShell(v, w) == IsSet(v) /\ IsSet(w) /\ v.rec = w.rec /\ v.ml = w.ml
+\* an explicit parent that becomes (or stops being) empty may change between `{ }' and the multi-line form
+SameShell(v, w) == IsSet(v) /\ IsSet(w) /\ v.rec = w.rec /\ (v.ml = w.ml \/ v.items = <<>> \/ w.items = <<>>)
 
 \* C04 frame for `set PATH': every item except the addressed one is identical (attrpath as written, value,
 \* comments, blank flag, position); the addressed item keeps everything but its value; a fresh binding is
 \* appended last (in this set, or in the nested set the path runs through) without trivia of its own.
 RECURSIVE SetFrame(_, _, _)
 SetFrame(I, J, p) ==
-    IF Exact(I, p) # {} THEN
+    IF I = J THEN TRUE       \* nothing changed: trivially local (whether the edit took effect is C05's business)
+    ELSE IF Exact(I, p) # {} THEN
         /\ Len(J) = Len(I)
         /\ \E i \in Exact(I, p) : /\ \A j \in 1..Len(I) : j # i => I[j] = J[j]
                                   /\ SameButVal(I[i], J[i])
@@ -137,7 +141,8 @@ SetFrame(I, J, p) ==
 SameButBlank(x, y) == [x EXCEPT !.blank = FALSE] = [y EXCEPT !.blank = FALSE]
 RECURSIVE RmFrame(_, _, _)
 RmFrame(I, J, p) ==
-    IF Exact(I, p) # {} THEN
+    IF I = J THEN TRUE
+    ELSE IF Exact(I, p) # {} THEN
         /\ Len(J) = Len(I) - 1
         /\ \E i \in Exact(I, p) : \A j \in 1..Len(J) : SameButBlank(J[j], IF j < i THEN I[j] ELSE I[j + 1])
     ELSE IF Through(I, p) # {} THEN
@@ -146,6 +151,9 @@ RmFrame(I, J, p) ==
         /\ \A j \in 1..Len(I) : j # i => I[j] = J[j]
         /\ SameButVal(I[i], J[i]) /\ SameShell(I[i].val, J[i].val)
         /\ RmFrame(I[i].val.items, J[i].val.items, Drop(p, Len(I[i].ap)))
+    ELSE IF Beyond(I, p) # {} THEN       \* a whole attrpath family removed through its root (lenient: see RmRefusal)
+        LET keep == SelectSeq(I, LAMBDA x : ~(IsBind(x) /\ ProperPrefix(p, x.ap))) IN
+        Len(J) = Len(keep) /\ \A j \in 1..Len(J) : SameButBlank(J[j], keep[j])
     ELSE FALSE
 
 \* C05 effect on the tree
